@@ -7,6 +7,7 @@ import (
 
 	"github.com/jawher/mow.cli/internal/container"
 	"github.com/jawher/mow.cli/internal/values"
+	"github.com/jawher/mow.cli/internal/verifhook"
 )
 
 // BoolOpt describes a boolean option
@@ -467,6 +468,7 @@ func mkOptStrs(optName string) []string {
 }
 
 func (c *Cmd) mkOpt(opt container.Container) {
+	verifhook.Point("cmd.mkOpt")
 	opt.DefaultValue = values.DefaultValue(opt.Value)
 	opt.ValueSetFromEnv = values.SetFromEnv(opt.Value, opt.EnvVar)
 
